@@ -129,6 +129,15 @@ Example C03_shadowed_example :
   r = Err EType /\ bitems (sget s' kx) = [Int 10] ++ [Int 2] ++ [Int 3].
 Proof. vm_compute. repeat split. Qed.
 
+(* A definition writes the outermost slot of the symbol's binding stack and keeps   *)
+(* every entry above it; with a global value present that slot is the global value, *)
+(* with temporary bindings only it is the outermost temporary binding (D39 below).  *)
+Theorem C03_definition_writes_only_the_bottom_slot : forall b v,
+  bitems (b_set_global b v) = match bitems b with [] => [v] | l => removelast l ++ [v] end /\
+  has_global (b_set_global b v) = true.
+Proof. exact set_global_writes_bottom. Qed.
+Print Assumptions C03_definition_writes_only_the_bottom_slot.
+
 (* REFUTED (defect D39, known finding): "after a request each variable has the     *)
 (* bindings it had, changed only by the definitions the program executed" fails of  *)
 (* the faithful model for a definition executed while the symbol has temporary      *)
